@@ -356,6 +356,20 @@ def m_set_insert(it, a, ty, callee):
     return True
 
 
+def m_set_extend(it, a, ty, callee):
+    from .seq import drain, as_lazy, m_into_iter
+    sp, src = a
+    s = it.load(sp)
+    src_it = src if isinstance(src, IterModel) else m_into_iter(it, [src], None, callee)
+    for x in drain(it, as_lazy(src_it)):
+        if isinstance(x, Ptr):
+            x = it.load(x)
+        if s.find(it, x) is None:
+            s = SetModel(s.fields + (x,))
+    it.store(sp, s)
+    return UNIT
+
+
 def m_set_remove(it, a, ty, callee):
     sp, xp = a
     s = it.load(sp)
@@ -744,6 +758,7 @@ def install(it):
     A(r'std::collections::(HashSet|BTreeSet)::<.*>::remove::<.*>', m_set_remove)
     A(r'std::collections::(HashSet|BTreeSet)::<.*>::contains::<.*>', m_set_contains)
     A(r'std::collections::(HashSet|BTreeSet)::<.*>::iter', m_set_iter)
+    A(r'<std::collections::(HashSet|BTreeSet)<.*> as std::iter::Extend<.*>>::extend::<.*>', m_set_extend)
     A(r'(?:std::collections::HashMap|indexmap::IndexMap)::<.*>::insert', m_map_insert)
     A(r'std::collections::HashMap::<.*>::remove::<.*>', m_map_remove)
     A(r'(?:std::collections::HashMap|indexmap::IndexMap)::<.*>::get::<.*>', m_map_get(False))
